@@ -3,29 +3,30 @@
 import json, os
 V = os.path.dirname(os.path.dirname(os.path.abspath(__file__)))
 props = [json.loads(l) for l in open(os.path.join(V, 'properties.jsonl'))]
-CLAIMED = {
- # id: (category, technique, level text, level note, design_ref)
- 'C02': ('model_checking', 'bounded symbolic execution of the real object-table code (symx proxies + z3), one inductive step from an arbitrary valid state vs a reference model',
-         'For every path of one ConnectionImpl.message step from an arbitrary valid table (ids fully symbolic in [2,2^32), bounded incarnation/argument counts) z3 proves that every mention resolves to the model\'s incarnation and the table changes exactly as the model says; induction over the checked invariant extends this to histories of any length. Witnesses are replayed on the real code before being reported.',
-         'Trusted: z3, the proxy executor lib/symx.py, the association-list replacement of the id dict, the reference model in harness/objtable.py. Bounds: see evidence (table ids, incarnations, arguments). Ill-formed histories are outside.', 'DESIGN.md §4 C02'),
- 'C03': ('model_checking', 'bounded symbolic execution of the real object-table code (symx proxies + z3), one inductive step, lifetime fields',
-         'Same step as C02 with the lifetime assertions: alive flags, creation/destruction times and lifespan arithmetic exact over symbolic integer times, destroyed_obj only on wl_display.delete_id, implicit destruction of re-used server ids at exactly id >= 0xff000000, no resurrection.',
-         'Trusted: as C02. Times are integers (float rounding of the displayed lifespan is not part of this check).', 'DESIGN.md §4 C03'),
-}
+import sys, importlib
+sys.path[:0] = [V, '/repo']
+CLAIMED = {}
+for p_ in props:
+    try:
+        m = importlib.import_module('harness.' + p_['id'].lower())
+    except ModuleNotFoundError:
+        continue
+    d = m.MANIFEST
+    CLAIMED[p_['id']] = (d['category'], d['technique'], d['text'], d['note'], d.get('ref', 'DESIGN.md §4 ' + p_['id']), d.get('engine', 'symx+z3'))
 NOT_YET = 'check not built yet in this round (see DESIGN.md §6 order of construction)'
 NA = {}
 checks = []
 for p in props:
     pid = p['id']
     if pid in CLAIMED:
-        cat, tech, text, note, ref = CLAIMED[pid]
+        cat, tech, text, note, ref, engine = CLAIMED[pid]
         checks.append({
             'property_id': pid,
             'quick_cmd': './check %s --tier quick' % pid,
             'thorough_cmd': './check %s --tier thorough' % pid,
             'evidence_file': 'evidence/%s.json' % pid,
             'replay_cmd_template': './check --replay {path}',
-            'engine': 'symx+z3',
+            'engine': engine,
             'level_claimed': {'category': cat, 'text': text, 'design_ref': ref},
             'level_note': note,
             'technique': tech,
@@ -37,7 +38,9 @@ manifest = {
            'baseline_off_cmd': 'cd /repo && /venv/bin/python -m pytest -ra -q -p no:cacheprovider --timeout=900 --continue-on-collection-errors',
            'source_commits': [], 'add_only': True},
  'engines': [
-  {'name': 'symx', 'path': 'lib/symx.py', 'serves_properties': sorted(CLAIMED), 'kind_free_text': 'proxy symbolic executor over the real Python functions, z3 decides every branch and every final assertion'},
+  {'name': 'symx', 'path': 'lib/symx.py', 'serves_properties': sorted(k for k, v in CLAIMED.items() if 'symx' in v[5]), 'kind_free_text': 'proxy symbolic executor over the real Python functions, z3 decides every branch and every final assertion'},
+  {'name': 'sre2smt', 'path': 'lib/sre2smt.py', 'serves_properties': sorted(k for k, v in CLAIMED.items() if 'sre2smt' in v[5]), 'kind_free_text': 'live compiled Python regexes -> z3 regular expressions with capture-group markers; language emptiness/inclusion queries'},
+  {'name': 'crosshair', 'path': 'lib/ch.py', 'serves_properties': sorted(k for k, v in CLAIMED.items() if 'crosshair' in v[5]), 'kind_free_text': 'CrossHair (z3-backed symbolic execution of Python) on harness functions with PEP-316 contracts'},
  ],
  'checks': checks,
  'not_applicable': [{'property_id': p['id'], 'reason': NA.get(p['id'], NOT_YET)} for p in props if p['id'] not in CLAIMED],
